@@ -97,7 +97,7 @@ def acceptAll (body : List Block) : List Block :=
 def atomChars : Atom → Str
   | .t s => s
   | .tab => ['\t']
-  | .br | .cr => ['\n']
+  | .br | .cr | .brT _ => ['\n']
   | .nbh => ['-']
   | _ => []
 
